@@ -762,6 +762,10 @@ func (a *FractionDigitsArg) Parse() error {
 	case 1:
 		fallthrough
 	case 2:
+		// "1".."18" in decimal digits without sign or leading zero
+		if str[0] < '1' || str[0] > '9' || (len(str) == 2 && (str[1] < '0' || str[1] > '9')) {
+			return ErrInval
+		}
 		a.fdigits, err = strconv.Atoi(str)
 		if err != nil {
 			return errors.New(ErrInval.Error() + ": " + err.Error())
